@@ -217,16 +217,15 @@ def extract(src):
         vals['dv_default_under'], vals['dv_default_over'] = dflt['under'], dflt['over']
         # if VIEW in over and name != 'mapped_view': over = as_sorted_tuple(over + ('mapped_view',))
         forced = None
-        for st in fn.body:
-            if isinstance(st, ast.If) and isinstance(st.test, ast.BoolOp) and isinstance(st.test.op, ast.And):
-                t = st.test.values
-                if (len(t) == 2 and isinstance(t[1], ast.Compare) and isinstance(t[1].ops[0], ast.NotEq)
-                        and isinstance(t[1].comparators[0], ast.Constant)):
-                    nm = t[1].comparators[0].value
-                    asg = st.body[0]
-                    tup = asg.value.args[0].right
-                    if isinstance(tup, ast.Tuple) and len(tup.elts) == 1 and tup.elts[0].value == nm:
-                        forced = nm
+        # over = as_sorted_tuple(over + ('mapped_view',))  -- wherever it stands (the control flow around it is translated)
+        for c in ast.walk(fn):
+            if (isinstance(c, ast.Call) and isinstance(c.func, ast.Name) and c.func.id == 'as_sorted_tuple' and len(c.args) == 1
+                    and isinstance(c.args[0], ast.BinOp) and isinstance(c.args[0].op, ast.Add)
+                    and isinstance(c.args[0].right, ast.Tuple) and len(c.args[0].right.elts) == 1
+                    and isinstance(c.args[0].right.elts[0], ast.Constant) and isinstance(c.args[0].right.elts[0].value, str)):
+                if forced is not None and forced != c.args[0].right.elts[0].value:
+                    raise Bad('two different forced alternatives')
+                forced = c.args[0].right.elts[0].value
         if forced is None:
             raise Bad('add_view_deriver "always over mapped_view" clause')
         vals['dv_forced_over'] = forced
@@ -377,6 +376,37 @@ def extract(src):
         if 'add_default_subscriber_predicates' in cm.text or 'add_subscriber_predicate(' in cm.text:
             raise Bad('default subscriber predicates appeared')
     guard('predicate directives', preds)
+
+    # ---- Configurator.setup_registry (config/__init__.py, outside the anchor files): the CONFIG-TIME glue between the
+    # settings / the stock declarations and the three sorters.  Structural, fail-closed: each add_default_* of this
+    # property is one unconditional top-level statement, and the explicit tween list is exactly
+    #     tweens = aslist(registry.settings.get('pyramid.tweens', []))
+    #     for factory in tweens: self._add_tween(factory, explicit=True)
+    def setup():
+        m = F.Module(src, 'pyramid/config/__init__.py')
+        fn = m.find('Configurator.setup_registry')
+        if fn is None:
+            raise Bad('Configurator.setup_registry not found')
+        top = [ast.unparse(st) for st in fn.body]
+        for d in ('add_default_view_predicates', 'add_default_view_derivers', 'add_default_route_predicates',
+                  'add_default_tweens'):
+            n_top = top.count('self.%s()' % d)
+            n_all = sum(1 for n in ast.walk(fn) if isinstance(n, ast.Attribute) and n.attr == d)
+            if n_top != 1 or n_all != 1:
+                raise Bad('setup_registry: self.%s() is not exactly one unconditional statement' % d)
+        want = ["tweens = aslist(registry.settings.get('pyramid.tweens', []))",
+                'for factory in tweens:\n    self._add_tween(factory, explicit=True)']
+        idx = [i for i, t in enumerate(top) if t == want[0]]
+        if len(idx) != 1 or idx[0] + 1 >= len(top) or top[idx[0] + 1] != want[1]:
+            raise Bad('setup_registry: the explicit tween list is not read as expected')
+        if sum(1 for n in ast.walk(fn) if isinstance(n, ast.Attribute) and n.attr in ('_add_tween', 'add_tween')) != 1:
+            raise Bad('setup_registry: further add_tween calls')
+        if sum(1 for n in ast.walk(fn) if isinstance(n, ast.Constant) and n.value == 'pyramid.tweens') != 1:
+            raise Bad("setup_registry: 'pyramid.tweens' read more than once")
+        # the default tweens are declared BEFORE the explicit list is read (an explicit list replaces, never merges)
+        if top.index('self.add_default_tweens()') > idx[0]:
+            raise Bad('setup_registry: add_default_tweens after the explicit list')
+    guard('config/__init__.py setup_registry', setup)
     return vals, problems
 
 
